@@ -158,12 +158,90 @@ Proof.
   all: try (apply (update_wo_nte cfg s pt d M Hd); apply G).
   all: try (apply (update_many_wo_nte cfg s pt d M Hd); apply G).
   all: try (apply (remove_filtered_wo_nte cfg s pt d M Hd); exact G).
-  - contradiction.
-  - apply IHop; assumption.
-  - unfold clear_policy. cbn [snd]. discriminate.
-  - destruct (load_policy_res cfg s) as [E|E]; rewrite E; discriminate.
-  - unfold save_policy. crunch; discriminate.
-  - discriminate.
-  - discriminate.
-  - discriminate.
+  all: try contradiction.
+  all: try (apply IHop; assumption).
+  all: try (unfold clear_policy; cbn [snd]; discriminate).
+  all: try (destruct (load_policy_res cfg s) as [E|E]; rewrite E; discriminate).
+  all: try (unfold save_policy; crunch; discriminate).
+  all: discriminate.
+Qed.
+
+(* ---------- C10: what is persisted is what is listed ---------- *)
+Definition Sync (cfg : mconf) (s : mstate) : Prop :=
+  (forall pt r, In (pt, r) (content (ad s)) -> def_of cfg pt <> None) /\
+  (forall pt d r, def_of cfg pt = Some d -> (In (pt, r) (content (ad s)) <-> In r (pol (get_store s pt)))).
+
+Lemma prule_eqb_eq a b : prule_eqb a b = true <-> a = b.
+Proof.
+  destruct a as [p1 r1], b as [p2 r2]. unfold prule_eqb. cbn [fst snd].
+  rewrite andb_true_iff, String.eqb_eq, rule_eqb_eq. split; [intros [-> ->]; reflexivity|intros H; inversion H; auto].
+Qed.
+Lemma mem_prule_In x l : mem_prule x l = true <-> In x l.
+Proof.
+  unfold mem_prule. rewrite existsb_exists. split.
+  - intros [y [Hy E]]. apply prule_eqb_eq in E. subst. exact Hy.
+  - intros H. exists x. split; [exact H|apply prule_eqb_eq; reflexivity].
+Qed.
+Lemma c_add_In x c y : In y (c_add x c) <-> y = x \/ In y c.
+Proof.
+  unfold c_add. destruct (mem_prule x c) eqn:M.
+  - apply mem_prule_In in M. split; [auto|intros [->|H]; auto].
+  - rewrite in_app_iff. cbn [In]. split; [intros [H|[H|[]]]; auto|intros [->|H]; auto].
+Qed.
+Lemma c_remove_In x c y : In y (c_remove x c) <-> In y c /\ y <> x.
+Proof.
+  unfold c_remove. rewrite filter_In, negb_true_iff. split.
+  - intros [H N]. split; [exact H|]. intros ->. assert (prule_eqb x x = true) by (apply prule_eqb_eq; reflexivity). congruence.
+  - intros [H N]. split; [exact H|]. apply not_true_iff_false. intros E. apply prule_eqb_eq in E. congruence.
+Qed.
+Lemma fold_c_add_In pt rs : forall c y, In y (fold_left (fun c r => c_add (pt, r) c) rs c) <-> In y c \/ exists r, In r rs /\ y = (pt, r).
+Proof.
+  induction rs as [|r t IH]; intros c y; cbn [fold_left In].
+  - split; [auto|intros [H|[r [[] _]]]; exact H].
+  - rewrite IH, c_add_In. split.
+    + intros [[->|H]|[r' [Hr E]]]; [right; exists r; auto|left; exact H|right; exists r'; auto].
+    + intros [H|[r' [[<-|Hr] E]]]; [left; right; exact H|left; left; exact E|right; exists r'; auto].
+Qed.
+Lemma fold_c_remove_In pt rs : forall c y, In y (fold_left (fun c r => c_remove (pt, r) c) rs c) <-> In y c /\ ~ exists r, In r rs /\ y = (pt, r).
+Proof.
+  induction rs as [|r t IH]; intros c y; cbn [fold_left In].
+  - split; [intros H; split; [exact H|intros [r [[] _]]]|tauto].
+  - rewrite IH, c_remove_In. split.
+    + intros [[H N] N2]. split; [exact H|]. intros [r' [[<-|Hr] E]]; [contradiction|]. apply N2. exists r'. auto.
+    + intros [H N]. split; [split; [exact H|]|].
+      * intros E. apply N. exists r. auto.
+      * intros [r' [Hr E]]. apply N. exists r'. auto.
+Qed.
+
+Lemma adapter_call_content a call a' ok old : adapter_call a call = (a', ok, old) ->
+  (ok = true -> content a' = fst (content_after call (content a))) /\ (ok = false -> content a' = content a).
+Proof.
+  unfold adapter_call. intros H. destruct (fail_in a) as [[|k]|].
+  - inversion H; subst. cbn [content]. split; [discriminate|reflexivity].
+  - destruct (content_after call (content a)) as [c o]. inversion H; subst. cbn [content fst]. split; [reflexivity|discriminate].
+  - destruct (content_after call (content a)) as [c o]. inversion H; subst. cbn [content fst]. split; [reflexivity|discriminate].
+Qed.
+
+Lemma ad_links_update d s pt a rs : ad (fst (links_update d s pt a rs)) = ad s.
+Proof. unfold links_update. destruct (build_incremental _ _ _ _) as [l ok]. reflexivity. Qed.
+
+Lemma Sync_same cfg s s' : same_mem s s' -> content (ad s') = content (ad s) -> Sync cfg s -> Sync cfg s'.
+Proof.
+  intros [S _] E [K1 K2]. split; [intros pt r; rewrite E; apply K1|].
+  intros pt d r Hd. rewrite E, S. apply K2; assumption.
+Qed.
+
+(* the generic step: in memory and in the adapter the rules R of type pt go and the rules A come *)
+Lemma Sync_change cfg s s' pt d R A : Sync cfg s -> def_of cfg pt = Some d ->
+  (forall x, In x (pol (get_store s' pt)) <-> (In x (pol (get_store s pt)) /\ ~ In x R) \/ In x A) ->
+  (forall pt', pt' <> pt -> get_store s' pt' = get_store s pt') ->
+  (forall pt' r, In (pt', r) (content (ad s')) <->
+      (In (pt', r) (content (ad s)) /\ ~ (pt' = pt /\ In r R)) \/ (pt' = pt /\ In r A)) ->
+  Sync cfg s'.
+Proof.
+  intros [K1 K2] Hd Hm Ho Hc. split.
+  - intros pt' r H. apply Hc in H as [[H _]|[-> _]]; [apply (K1 _ _ H)|congruence].
+  - intros pt' d' r Hd'. rewrite Hc. destruct (string_dec pt' pt) as [->|Hne].
+    + rewrite Hm, (K2 pt d r Hd). intuition.
+    + rewrite (Ho pt' Hne), (K2 pt' d' r Hd'). intuition.
 Qed.
